@@ -284,7 +284,7 @@ func writeOutput(c *config, states []*progState, elapsed time.Duration) error {
 	fmt.Fprintf(w, "progrun version=1 seed=%d programs=%d repo=%s defaultconc=%d replay=%d\n",
 		c.seed, c.programs, c.repo, progoracle.DefaultConc, b2i(c.replay != ""))
 	for _, t := range ps.Types {
-		emit("T %d shape=%s home=%s comparable=%d flowvalue=%d", t.ID, t.Shape, t.Home, b2i(t.Comparable), b2i(t.ID < ps.NumTypes))
+		emit("T %d shape=%s home=%s comparable=%d flowvalue=%d", t.ID, t.Shape, t.Home, b2i(t.Comparable), b2i(isFlowType(t.ID)))
 	}
 
 	nX, nXK := 0, 0
@@ -629,4 +629,13 @@ func firstLine(s string) string {
 		}
 	}
 	return ""
+}
+
+func isFlowType(id int) bool {
+	for _, x := range ps.FlowTypes {
+		if x == id {
+			return true
+		}
+	}
+	return false
 }
